@@ -104,26 +104,42 @@ func verifSess(sess *Sess) VerifSess {
 			Ref: uint16(verifUint(u, "refPdrNum")),
 		}
 	}
-	for id, q := range sess.q {
-		// peek without reordering: drain and refill (loop is idle)
-		n := len(q)
-		var hs []string
-		for i := 0; i < n; i++ {
-			select {
-			case p, ok := <-q:
-				if !ok {
+	// the queues are read through a type switch: a refactoring that changes their representation (a slice instead of a
+	// channel, say) must not break the harness build
+	switch qs := any(sess.q).(type) {
+	case map[uint16]chan []byte:
+		for id, q := range qs {
+			// peek without reordering: drain and refill (loop is idle)
+			n := len(q)
+			var hs []string
+			for i := 0; i < n; i++ {
+				select {
+				case p, ok := <-q:
+					if !ok {
+						i = n
+						break
+					}
+					h := sha256.Sum256(p)
+					hs = append(hs, hex.EncodeToString(h[:6]))
+					q <- p
+				default:
 					i = n
-					break
 				}
-				h := sha256.Sum256(p)
-				hs = append(hs, hex.EncodeToString(h[:6]))
-				q <- p
-			default:
-				i = n
+			}
+			if len(hs) > 0 {
+				v.Queues[id] = hs
 			}
 		}
-		if len(hs) > 0 {
-			v.Queues[id] = hs
+	case map[uint16][][]byte:
+		for id, q := range qs {
+			var hs []string
+			for _, p := range q {
+				h := sha256.Sum256(p)
+				hs = append(hs, hex.EncodeToString(h[:6]))
+			}
+			if len(hs) > 0 {
+				v.Queues[id] = hs
+			}
 		}
 	}
 	return v
